@@ -32,6 +32,12 @@ for prop in ["C04", "C05", "C06", "C10", "C17"]:
             known(prop, "attach", f"{kind} lost ({route}) on a span with several parents in one trace", K1)
         known(prop, "attach", f"{kind} on a record it was not attached to (or twice) on a span with several parents in one trace", K1)
 
+# K1 also shows when one captured set is pushed to two parents that belong to the same trace: the
+# copies carry the same span ids, so the first copy's records take all parked attachments.
+for prop in ["C17", "C05", "C10"]:
+    for kind in ["properties", "events"]:
+        known(prop, "sets", f"copies of a local-span set pushed to two parents of one trace have different {kind}", K1)
+
 # K2: order of attachments made through nested local-parent scopes of the same span
 K2 = ("the same span set as local parent twice, nested, on one thread: attachments made in the inner scope are submitted when the inner "
       "scope ends, i.e. before earlier attachments made in the outer scope, and are delivered in that order. Repair would need the "
